@@ -198,40 +198,6 @@ pub fn msg_body<'a>(msg: &'a Value) -> (&'a str, &'a Value) {
     }
 }
 
-/// 32 lower-case hex digits of a UUID written in any of the usual spellings, or None
-pub fn uuid_hex(s: &str) -> Option<String> {
-    let t = s.trim();
-    let t = t.strip_prefix("urn:uuid:").unwrap_or(t);
-    let t = t.strip_prefix('{').and_then(|x| x.strip_suffix('}')).unwrap_or(t);
-    let h: String = t.chars().filter(|c| *c != '-').collect::<String>().to_lowercase();
-    if h.len() == 32 && h.chars().all(|c| c.is_ascii_hexdigit()) {
-        Some(h)
-    } else {
-        None
-    }
-}
-
-fn resolve_other_spelling(kind: &str, body: &Value, book: &Book) -> Option<Value> {
-    let is_ask = match kind {
-        "cancel_ask" | "expire_ask" | "reject_ask" => true,
-        "cancel_bid" | "expire_bid" | "reject_bid" => false,
-        _ => return None,
-    };
-    let id = body.get("id")?.as_str()?;
-    let keys: Vec<&String> = if is_ask { book.asks.keys().collect() } else { book.bids.keys().collect() };
-    if keys.iter().any(|k| k.as_str() == id) {
-        return None;
-    }
-    let want = uuid_hex(id)?;
-    let same: Vec<&&String> = keys.iter().filter(|k| uuid_hex(k).as_deref() == Some(want.as_str())).collect();
-    if same.len() != 1 {
-        return None;
-    }
-    let mut b = body.clone();
-    b["id"] = Value::String((**same[0]).clone());
-    Some(b)
-}
-
 pub const GUARDED: [&str; 9] = [
     "cancel_ask", "cancel_bid", "expire_ask", "expire_bid", "reject_ask", "reject_bid", "execute_match", "approve_ask", "modify_contract",
 ];
@@ -259,6 +225,23 @@ pub fn check_step(c: &StepCtx, h: &mut Hist, st: &mut Stats, out: &mut Vec<Viol>
         }
     }
 
+    // A request (other than a create) whose order id is not a key of the book as spelled, but is another
+    // spelling of the UUID of exactly one order of that side, is judged against that order. No property says
+    // such a request must be refused or must be accepted (the pinned tree refuses it), only what an accepted
+    // one must do; the stored key is what every monitor below takes as "the order named" (C17: the id
+    // attribute must be the stored id).
+    let resolved_body;
+    let mut other_spelling = false;
+    let body = match resolve_other_spelling(kind, body, &c.pre_book) {
+        Some(b) => {
+            other_spelling = true;
+            st.g(if accepted { "accepted_request_under_another_spelling_of_the_id" } else { "refused_request_under_another_spelling_of_the_id" });
+            resolved_body = b;
+            &resolved_body
+        }
+        None => body,
+    };
+
     // ---------------- two-sided accept/refuse predicates (C07, C03)
     match kind {
         "create_ask" | "create_bid" => {
@@ -285,7 +268,7 @@ pub fn check_step(c: &StepCtx, h: &mut Hist, st: &mut Stats, out: &mut Vec<Viol>
             if accepted && !v.exact_ok {
                 viol(out, "C03", "eligibility", &format!("ineligible match accepted: {}", v.reason), format!("request {} by {}", msg, sender));
             }
-            if !accepted && v.exact_ok && v.in_domain {
+            if !accepted && v.exact_ok && v.in_domain && !other_spelling {
                 viol(out, "C03", "eligibility", "eligible match refused", format!("request {} by {} -> {:?}", msg, sender, c.out));
             }
         }
@@ -301,21 +284,6 @@ pub fn check_step(c: &StepCtx, h: &mut Hist, st: &mut Stats, out: &mut Vec<Viol>
     };
     let delta = ledger_delta(c.pre, c.post);
     let cdelta = contract_delta(&delta);
-
-    // An accepted cancel / expire / reject whose id is not a key of the book as spelled, but is another
-    // spelling of the UUID of exactly one order of that side, is judged against that order: no property
-    // says such a request must be refused (the pinned tree does refuse it), only what an accepted one must
-    // do. The stored key is what the one-sided monitors below (C04, C05, C11, C01 per-order, C17's id
-    // attribute) then take as "the order named".
-    let resolved_body;
-    let body = match resolve_other_spelling(kind, body, &c.pre_book) {
-        Some(b) => {
-            st.g("reversal_under_another_spelling_of_the_id_resolved");
-            resolved_body = b;
-            &resolved_body
-        }
-        None => body,
-    };
 
     check_c05(c, cfg, kind, body, sender, st, out);
     check_c10(c, kind, sender, xfers, st, out);
